@@ -1,6 +1,7 @@
 //! `rainverif <component> --tier quick|thorough --seed N --drv <raindrv> --out <file> [--replay-case "<line>"]`
 
 mod c04;
+mod builder;
 mod c05;
 mod codec;
 mod lru;
@@ -104,6 +105,7 @@ fn main() {
         "lru" => lru::run(&tier, seed, replay.as_deref(), &drv),
         "codec" => codec::run(&tier, seed, replay.as_deref(), &drv),
         "pick" => pick::run(&tier, seed, replay.as_deref(), &drv),
+        "builder" => builder::run(&tier, seed, replay.as_deref(), &drv),
         "c15" => {
             let sh = shard::parse_shard(&args);
             if sh.is_some() || replay.is_some() || std::env::var("VERIF_NOSHARD").is_ok() {
